@@ -100,6 +100,8 @@ type World10 struct {
 // identity (tx origin, another contract) shows in the accounting
 var victimAllowance = map[int]int64{aU0: 40, aKC: 25, aKB: 15, aKD: 12, aKCC: 9, aKS: 6}
 
+const originAllowanceKC = 4
+
 func e18(n int64) *big.Int { return new(big.Int).Mul(big.NewInt(n), big.NewInt(1e18)) }
 
 func forwarder(kind lib.CallKind, target common.Address) []byte {
@@ -162,6 +164,9 @@ func NewWorld10(seed int64) *World10 {
 	}
 	sk.SetAllowance(c.Ctx, w.vals[0], w.addrs[aU2].Bytes(), w.addrs[aU0].Bytes(), e18(7)) // owner without delegation
 	sk.SetAllowance(c.Ctx, w.vals[0], w.addrs[aU0].Bytes(), w.addrs[aU1].Bytes(), e18(3))
+	// the SENDER of the transactions also granted something, to one of the contracts it will call (and nothing to the others):
+	// a contract a delegator merely calls must not move the delegator's shares beyond that
+	sk.SetAllowance(c.Ctx, w.vals[0], w.addrs[aU0].Bytes(), w.addrs[aKC].Bytes(), e18(originAllowanceKC))
 	// pool entries (through the real precompile) and a bridge call of the victim
 	xabi := crosschaintypes.GetABI()
 	pc := lib.CrosschainPrecompile
@@ -431,7 +436,14 @@ func (w *World10) calls(caller int) []Call10 {
 		{0, aU1, caller, e18(1)}, {0, aU1, aU2, e18(victimAllowance[caller])}, {0, aU1, caller, new(big.Int).Add(e18(victimAllowance[caller]), big.NewInt(1))},
 		{0, aU1, aU1, e18(2)}, {0, aU2, caller, e18(1)}, {1, aU1, caller, e18(1)}, {0, caller, aU2, e18(1)},
 		{0, aU1, caller, e18(101)},
+		// the owner named in the calldata is the transaction's own sender (tx origin), the recipient a third party:
+		// without / within / beyond the allowance the sender granted the calling contract
+		{0, aU0, aU2, e18(1)}, {0, aU0, aU2, e18(originAllowanceKC)}, {0, aU0, aU1, new(big.Int).Add(e18(originAllowanceKC), big.NewInt(1))},
+		{0, aU0, aU2, e18(20)},
 	} {
+		if c.from == caller && c.from == aU0 && c.to == aU2 && c.sh.Cmp(e18(1)) != 0 {
+			continue // account shape: owner == caller is already covered once above
+		}
 		add(S, "transferFromShares", fmt.Sprintf("(CTransferFromShares %d %d %d %s)", c.val, c.from, c.to, zb(c.sh)), true, nil, c.from, c.sh, c.val,
 			w.vals[c.val].String(), A(c.from), A(c.to), c.sh)
 	}
@@ -494,6 +506,7 @@ func mixCase(s string, r *lib.Rand) string {
 
 type switchSetting struct {
 	name    string
+	blocks  bool // the list disables the called address / method (for an input that names a method)
 	entries func(c Call10) []string
 }
 
@@ -511,16 +524,43 @@ func switches(r *lib.Rand) []switchSetting {
 		}
 		return lib.StakingPrecompile
 	}
+	// a real selector of the same contract that is not the called one
+	sibling := func(c Call10) string {
+		a, b := "49da433e", "6d788035" // staking: approveShares, delegateV2
+		if c.Target == lib.CrosschainPrecompile {
+			a, b = "160d7c73", "0b56c190" // crosschain: crossChain, cancelSendToExternal
+		}
+		if sel(c) == a {
+			return b
+		}
+		return a
+	}
 	return []switchSetting{
-		{"none", func(c Call10) []string { return nil }},
-		{"address", func(c Call10) []string { return []string{"junk", mixCase(hexAddr(c.Target), r)} }},
-		{"address/method", func(c Call10) []string { return []string{mixCase(hexAddr(c.Target)+"/"+sel(c), r)} }},
-		{"other-address-and-other-method", func(c Call10) []string {
+		{"none", false, func(c Call10) []string { return nil }},
+		{"address", true, func(c Call10) []string { return []string{"junk", mixCase(hexAddr(c.Target), r)} }},
+		{"address/method", true, func(c Call10) []string { return []string{mixCase(hexAddr(c.Target)+"/"+sel(c), r)} }},
+		{"other-address-and-other-method", false, func(c Call10) []string {
 			return []string{hexAddr(other(c)), hexAddr(c.Target) + "/ffffffff", hexAddr(other(c)) + "/" + sel(c)}
 		}},
-		{"malformed", func(c Call10) []string {
+		{"malformed", false, func(c Call10) []string {
 			// what the code does not treat as a match: no 0x prefix, 0x in front of the method id, trailing space
 			return []string{strings.TrimPrefix(hexAddr(c.Target), "0x"), hexAddr(c.Target) + "/0x" + sel(c), hexAddr(c.Target) + " "}
+		}},
+		// several entries for the same precompile address: every one of them counts, in any order
+		{"method-then-sibling-method", true, func(c Call10) []string {
+			return []string{hexAddr(c.Target) + "/" + sel(c), mixCase(hexAddr(c.Target), r) + "/" + sibling(c)}
+		}},
+		{"sibling-method-then-method", true, func(c Call10) []string {
+			return []string{hexAddr(c.Target) + "/" + sibling(c), hexAddr(other(c)), mixCase(hexAddr(c.Target)+"/"+sel(c), r)}
+		}},
+		{"address-then-sibling-method", true, func(c Call10) []string {
+			return []string{hexAddr(c.Target), hexAddr(c.Target) + "/" + sibling(c)}
+		}},
+		{"sibling-method-then-address", true, func(c Call10) []string {
+			return []string{hexAddr(c.Target) + "/" + sibling(c), hexAddr(c.Target) + "/ffffffff", mixCase(hexAddr(c.Target), r)}
+		}},
+		{"two-sibling-methods-only", false, func(c Call10) []string {
+			return []string{hexAddr(c.Target) + "/" + sibling(c), hexAddr(c.Target) + "/ffffffff"}
 		}},
 	}
 }
@@ -680,7 +720,7 @@ func (w *World10) one(rep *lib.Report, r *lib.Rand, sh shape, caller int, kind s
 		fail("the precompile was entered with a caller other than the executing context", "C10:caller-identity",
 			fmt.Sprintf("expected %s got %s", w.addrs[caller].Hex(), pf.From.Hex()))
 	}
-	disabled := sw.name == "address" || (sw.name == "address/method" && len(call.Data) >= 4)
+	disabled := sw.blocks
 	guardStop := call.Write && (kind != "CALL")
 	nontrivial := (call.Write && !disabled && !guardStop && (call.From >= 0 || strings.Contains(call.Method, "cancel") || strings.Contains(call.Method, "increase") || strings.Contains(call.Method, "transfer"))) || (call.Write && (disabled || guardStop || static))
 	rep.Case(key, nontrivial)
